@@ -15,18 +15,25 @@ let run_paillier (k : skey) (ops : string list) : string list =
   let reg i = (!regs).(int_of_string i) in
   let ct v = push v; h v in
   let cto = function None -> push Big_int_Z.unit_big_int; "ERR" | Some v -> ct v in
+  (* plaintext arguments: negative values go through NewPlaintextSymmetric, others
+     through NewPlaintextFromNat; nonces through NewNonce *)
+  let pt x = if Big_int_Z.sign_big_int x < 0 then plaintext_symmetric n x else plaintext_from_nat n x in
+  let nonce r = unit_from n r in
+  let ( let* ) o f = match o with None -> None | Some v -> f v in
   List.map (fun o ->
     match String.split_on_char ',' o with
-    | ["E"; m; r] -> ct (enc n (z m) (z r))
-    | ["e"; m; r] -> ct (sk_enc k (z m) (z r))
+    | ["E"; m; r] -> cto (let* m = pt (z m) in let* r = nonce (z r) in Some (enc n m r))
+    | ["e"; m; r] -> cto (let* m = pt (z m) in let* r = nonce (z r) in Some (sk_enc k m r))
     | ["A"; i; j] -> ct (cmul n (reg i) (reg j))
     | ["a"; i; j] -> ct (sk_cmul k (reg i) (reg j))
+    | ["M"; i; j; l] -> ct (cmul n (cmul n (reg i) (reg j)) (reg l))
+    | ["m"; i; j; l] -> ct (sk_cmul k (sk_cmul k (reg i) (reg j)) (reg l))
     | ["S"; i; s] -> cto (cscale n (reg i) (z s))
     | ["s"; i; s] -> cto (sk_cscale k (reg i) (z s))
-    | ["H"; i; d] -> ct (shift n (reg i) (z d))
-    | ["h"; i; d] -> ct (sk_shift k (reg i) (z d))
-    | ["R"; i; r] -> ct (rerandomise n (reg i) (z r))
-    | ["r"; i; r] -> ct (sk_rerandomise k (reg i) (z r))
+    | ["H"; i; d] -> cto (let* d = pt (z d) in Some (shift n (reg i) d))
+    | ["h"; i; d] -> cto (let* d = pt (z d) in Some (sk_shift k (reg i) d))
+    | ["R"; i; r] -> cto (let* r = nonce (z r) in Some (rerandomise n (reg i) r))
+    | ["r"; i; r] -> cto (let* r = nonce (z r) in Some (sk_rerandomise k (reg i) r))
     | ["I"; i] -> cto (cinv n (reg i))
     | ["i"; i] -> cto (sk_cinv k (reg i))
     | ["X"; v] -> cto (unit_from (Big_int_Z.mult_big_int n n) (z v))
